@@ -1,0 +1,11 @@
+//go:build verif
+
+// Contracts for the verif build tag (read by /verif/govc; comment-only).
+package metadata
+
+// The metadata store is external (file, Kubernetes config map): storing changes
+// nothing the coordinator can see in memory.
+//
+//@ func Provider.Store(recv, cs, expectedVersion) (newVersion, err)
+//@ trusted
+//@ modifies nothing
